@@ -1,7 +1,76 @@
 import Dhcp.Driver.Hex
-/- Line-protocol operations of the `Raw` family (stub until the model lands). -/
-namespace Dhcp.Driver
+import Dhcp.Raw
+/-
+  Line-protocol operations of the `Raw` family (nclient4's raw broadcast
+  connection):
 
-def stepRaw (_op : String) (_args : List String) : Option String := none
+    rawwr <payloadhex> dst=<iphex|nil>:<port> src=<iphex|nil>:<port>|none
+        -> ok <framehex> | panic
+       the frame BroadcastRawUDPConn.WriteTo hands to the underlying conn
+       (src = the bound address; `none` = nil *net.UDPAddr)
+    rawcw src=<iphex|nil>:<port> warm=<n|-> rel=<digits> <payloadhex>@<iphex|nil>:<port> ...
+        -> ok <framehex> <framehex> ... | panic
+       2..4 writers on one connection, all inside the underlying WriteTo at
+       the same time: the frame each one handed to the socket, in writer
+       order (warm-up write and release order do not matter to the model)
+    rawrd bound=<iphex|nil>:<port>|none buflen=<n> <framehex> <framehex> ...
+        -> ok <payloadhex>@<srciphex>:<port> ... [eof] ... end | panic
+       every result of repeated ReadFrom calls over the scripted frames, in
+       order; `eof` = a call that returned io.EOF; `end` = the script's error.
+-/
+namespace Dhcp.Driver
+open Dhcp Dhcp.Raw
+
+/-- `<iphex|nil>:<port>` or `none` (nil pointer) -/
+def parseAddr (s : String) : Option (Option Addr) :=
+  if s == "none" then some none
+  else match s.splitOn ":" with
+    | [ip, port] => do
+      let ip ← unhexOpt ip
+      let port ← port.toNat?
+      pure (some { ip := ip, port := port })
+    | _ => none
+
+def showStep : Step → String
+  | .deliver p ip port => s!"{hex p}@{hex ip}:{port}"
+  | .eof => "eof"
+  | .skip => "skip"
+
+def isFrameTok (t : String) : Bool := !(t.toList.contains '=')
+
+def stepRaw (op : String) (args : List String) : Option String :=
+  match op, args with
+  | "rawwr", p :: rest => do
+    let payload ← unhex p
+    let dst ← parseAddr (← field rest "dst")
+    let src ← parseAddr (← field rest "src")
+    let dst ← dst
+    pure (match writeTo src payload dst with
+          | .ok f => "ok " ++ hex f
+          | .err => "err"
+          | .panic => "panic")
+  | "rawcw", toks => do
+    let src ← parseAddr (← field toks "src")
+    let ws ← (toks.filter (fun t => t.toList.contains '@')).mapM (fun t =>
+      match t.splitOn "@" with
+      | [p, a] => do
+        let p ← unhex p
+        let a ← parseAddr a
+        let a ← a
+        pure (p, a)
+      | _ => none)
+    pure (match writeAll src ws with
+          | .ok fs => " ".intercalate ("ok" :: fs.map hex)
+          | .err => "err"
+          | .panic => "panic")
+  | "rawrd", toks => do
+    let bound ← parseAddr (← field toks "bound")
+    let buflen ← (← field toks "buflen").toNat?
+    let frames ← (toks.filter isFrameTok).mapM unhex
+    pure (match readFrames bound buflen frames with
+          | .ok steps => " ".intercalate ("ok" :: steps.map showStep ++ ["end"])
+          | .err => "err"
+          | .panic => "panic")
+  | _, _ => none
 
 end Dhcp.Driver
